@@ -28,3 +28,9 @@ pub const S8_E: Shape = split(8, 0b111, 0, 4, 0, 0b0010, 0);
 pub const S4F_E: Shape = split(4, 0b0111, 0, 4, 0, 0, 0);
 /// split, 7 leftovers (one carry finishes at R = 8; two at R = 4)
 pub const S16_8: Shape = split(16, 0b11, 0, 8, 0x7f, 0, 0);
+/// split, main table emptied by removals while two leftovers remain
+pub const S8M0_4A: Shape = split(8, 0, 0b0011, 4, 0b0110, 0, 0);
+/// split, roomy 16-bucket main table (shrink_to has something to shrink)
+pub const S16_4A: Shape = split(16, 0b1, 0, 4, 0b0110, 0, 0);
+/// unsplit, roomy 16-bucket main table with 2 elements
+pub const U16_2: Shape = unsplit(16, 0b101, 0);
